@@ -47,18 +47,23 @@ def Rule.name : Rule → Bytes
 /-- `\r?\n?$` -/
 def matchTail (t : Bytes) : Bool := t == [] || t == [13] || t == [10] || t == [13, 10]
 
-/-- `(.*)\r?\n?$` tried greedily with backtracking; returns submatch 2. -/
+/-- `[^\r\n]` -/
+def isValueByte (c : UInt8) : Bool := c != 13 && c != 10
+
+/-- `([^\r\n]*)\r?\n?$` tried greedily with backtracking; returns submatch 2.  The class can
+    consume at most the leading run of bytes other than CR and LF; every shorter choice is tried
+    in descending order, as a backtracking matcher (and Go's leftmost-first semantics) would. -/
 def valueMatch (r : Bytes) : Option Bytes :=
-  let run := r.takeWhile (fun c => c != 10)
+  let run := r.takeWhile isValueByte
   (List.range (run.length + 1)).reverse.findSome?
     (fun m => if matchTail (r.drop m) then some (r.take m) else none)
 
-/-- `\s*(.*)\r?\n?$` with greedy `\s*` and backtracking. -/
+/-- `\s*([^\r\n]*)\r?\n?$` with greedy `\s*` and backtracking (`\s` contains CR and LF). -/
 def wsValueMatch (rest : Bytes) : Option Bytes :=
   let k := (rest.takeWhile isSpaceRE).length
   (List.range (k + 1)).reverse.findSome? (fun j => valueMatch (rest.drop j))
 
-/-- `^([A-Za-z0-9-]+):\s*(.*)\r?\n?$` → (name, value) -/
+/-- `^([A-Za-z0-9-]+):\s*([^\r\n]*)\r?\n?$` → (name, value) -/
 def lineMatch (val : Bytes) : Option (Bytes × Bytes) :=
   let name := val.takeWhile isNameByte
   if name.isEmpty then none else
@@ -76,8 +81,8 @@ def parseRaw (val : Bytes) : Option Rule :=
     else some (.remove (val.drop 1))
   else if val.head? == some 37 then                 -- HasPrefix "%"
     some (.rename (val.drop 1))
-  else if val.getLast? == some 59 then              -- HasSuffix ";"
-    some (.empty val.dropLast)
+  else if val.getLast? == some 59 && validName val.dropLast then
+    some (.empty val.dropLast)                      -- HasSuffix ";" && name regexp on val[:len-1]
   else
     (lineMatch val).map (fun p => .add p.1 p.2)
 
@@ -109,7 +114,7 @@ def renameCase (h : HMap) (n : Bytes) : HMap :=
   let c := canonicalKey n
   match HMap.get h c with
   | none => h
-  | some vs => HMap.erase (HMap.put h n vs) c
+  | some vs => if n != c then HMap.erase (HMap.put h n vs) c else h   -- `ok && h.Name != canon`
 
 def applyRule (h : HMap) : Rule → HMap
   | .remove n => goDel h n
@@ -184,8 +189,8 @@ def holdsStep (r : Rule) (before after : HMap) : Bool :=
      else true
    | _ => true)
 
-/-- Known-finding classes (section 6 of DESIGN.md, F9): inputs on which the unchanged code is
-    known to deviate from the documented meaning. -/
+/-- Known-finding classes (section 6 of DESIGN.md, F9c): rule lists on which the code is known to
+    deviate from the documented meaning hold a `%name` rule. -/
 def renameSeen (rs : List Rule) : Bool := rs.any (fun r => match r with | .rename _ => true | _ => false)
 
 end C16
